@@ -1041,6 +1041,9 @@ func c14Sync(c *an.Ctx) {
 					st[e.Name] = e.Args[0]
 				}
 			}
+			if v, changed := st["p0.syncTime"]; changed {
+				return "the stored sync point left alone by the fetch (it advances only after the response has been applied; a zeroed sync point makes later incremental syncs ask for a full snapshot without clearing the maps); got " + v
+			}
 			if !f.B("err") {
 				if o.RetString() == "nonnil:sr, nil" && st["p0.lastFullSyncError"] == "" {
 					return ""
